@@ -145,23 +145,26 @@ class ShapeBase:
     """alternatively mapped parent of a normally mapped subclass; declares a relationship of its own"""
     uid: int = 0
     name: str = ""
+    turn: int = 0
     ports: List[Port] = field(default_factory=list)
     meta: Dict[str, int] = field(default_factory=dict)
 
 
 @dataclass
 class ShapeBaseMapping(AlternativeMapping[ShapeBase]):
-    """stores `name` under another field name: a subclass DAO has to get it back through the parent mapping"""
+    """stores `name` under another field name: a subclass DAO has to get it back through the parent mapping; `turn`
+    keeps its name but is stored in another encoding (lowest bit flipped), and `ports` are stored in reversed order, so they have to pass through the mapping in both directions"""
     uid: int
     label: str
+    turn: int
     ports: List[Port]
 
     @classmethod
     def create_instance(cls, obj: ShapeBase) -> Self:
-        return cls(obj.uid, "L:" + obj.name, obj.ports)
+        return cls(obj.uid, "L:" + obj.name, obj.turn ^ 1, list(reversed(obj.ports)))
 
     def create_from_dao(self) -> ShapeBase:
-        return ShapeBase(self.uid, self.label[2:], self.ports)
+        return ShapeBase(self.uid, self.label[2:], self.turn ^ 1, list(reversed(self.ports)))
 
 
 @dataclass(eq=False)
